@@ -22,6 +22,8 @@ impl GC {
     #[inline]
     pub fn maybe_trace(&mut self, o: Object) {
         if o.is_heap_allocated() {
+            #[cfg(feature = "verif")]
+            crate::verif::gc_trace(self as *const _ as usize, o);
             self.objects.push(o);
             self.mark_bitmap.reserve(1);
         }
@@ -30,6 +32,8 @@ impl GC {
     /// Adds the given object to the list of objects to manage
     #[inline]
     pub fn trace(&mut self, o: Object) {
+        #[cfg(feature = "verif")]
+        crate::verif::gc_trace(self as *const _ as usize, o);
         self.objects.push(o);
         self.mark_bitmap.reserve(1);
     }
@@ -42,6 +46,8 @@ impl GC {
             .position(|a| std::ptr::eq(a.as_ptr(), o.as_ptr()))
         {
             self.objects.swap_remove(pos);
+            #[cfg(feature = "verif")]
+            crate::verif::gc_untrace(self as *const _ as usize, o);
 
             if o.tag() == Type::Array {
                 // Safety: We've already checked the type
@@ -70,6 +76,9 @@ impl GC {
             return;
         }
 
+        #[cfg(feature = "verif")]
+        crate::verif::gc_run_begin(self as *const _ as usize, &self.objects, roots);
+
         self.mark_bitmap.clear();
 
         // Mark all reachable objects
@@ -81,6 +90,9 @@ impl GC {
 
         // Sweep all unreachable objects
         self.sweep();
+
+        #[cfg(feature = "verif")]
+        crate::verif::gc_run_end(self as *const _ as usize, &self.objects);
     }
 
     /// Sweep all unmarked objects
@@ -108,6 +120,13 @@ impl GC {
             let universe_ptr: *const Object = self.objects.as_ptr().cast();
             object_ptr.offset_from(universe_ptr) as usize
         };
+        // The bitmap accesses below are unchecked: under the verification hooks an index
+        // outside the managed vector is recorded and skipped instead of being written through.
+        #[cfg(feature = "verif")]
+        if index >= self.objects.len() {
+            crate::verif::gc_mark_index(index, self.objects.len());
+            return;
+        }
         debug_assert!(index < self.objects.len());
 
         if o.tag() == Type::Array {
@@ -138,6 +157,8 @@ impl GC {
 /// Implement Drop trait so that GC::destroy() is automatically called once the Garbage Collector goes out of scope
 impl Drop for GC {
     fn drop(&mut self) {
+        #[cfg(feature = "verif")]
+        crate::verif::gc_drop(self as *const _ as usize, &self.objects);
         self.destroy();
     }
 }
